@@ -21,7 +21,13 @@ BOUNDS = dict(
                object="__init__: symbolic 3x3 reciprocal lattice and weights, meshes 2x3x4, 3x1x2; from_kpoints: mono/tric/hex 2x3x4, fcc 3x2x2, bcc 2x2x3, mono 3x3x2, and 2D / 1D / Gamma-only meshes (5x3x1, 1x6x1, 4x1x1, 3x2x1, 1x3x2, 1x4x1, 1x1x1) on three strongly sheared, "
                       "non-reduced cells and the triclinic one; seeded k-point order, symbolic kmesh_tol",
                nnkp="from_nnkp: hex 1x1x1 / ortho 2x2x1 / fcc 2x2x2 with every transposition of the shell-ordered neighbour list, sc 2x3x4 with every rotation, hex 2x2x1 and mono 2x3x4 seeded shuffles; other k-points listed in seeded orders"),
-    thorough=dict(neighbours="meshes up to 4x3x2, 2 b's x 2 k's up to 6 points", weights="as quick, up to 4 shells", shells="as quick plus (3,3,3),(4,4,2)"))
+    thorough=dict(neighbours="meshes up to 27 points (3x3x3, 4x3x2, 2x4x3, 5x2x2, 6x3x1, 1x7x2, ...), one symbolic b with one k at three enumerated positions; 2 b's x 2 k's up to 6 points, 2 b's x 1 k up to 12 points",
+                  weights="as quick plus complete shell sets, sets with the last shell dropped and symbolically stretched sets of 12 further cell/mesh combinations that need 3 to 6 shells "
+                          "(base-centred orthorhombic, tetragonal, rhombohedral, body-centred tetragonal and face-centred orthorhombic with anisotropic meshes, two triclinic and three sheared cells)",
+                  shells="17 cells x meshes (1,1,1),(2,2,2),(3,2,1) (+ (3,3,3),(4,4,2) for the quick family)",
+                  object="from_kpoints: 17 cells x meshes 2x3x4, 4x2x3, 5x3x1, 1x6x1, 3x2x5, 4x4x2, 1x1x1, 3x3x3 (bct/fco with isotropic meshes excluded, see OUTSIDE)",
+                  nnkp="from_nnkp: 12 further cell/mesh combinations, each with every transposition, every rotation and three seeded shuffles of the neighbour list; two successive symbolic transpositions "
+                       "(double swaps, 3-cycles) for hex 1x1x1, ortho 2x2x1, tetra 2x3x4, hex 2x3x4"))
 EXPLANATION = ("(a) The real find_G_and_neighbours runs on a k-point list whose order is a symbolic permutation of the mesh and on symbolic integer b-vectors; z3 (linear integer "
                "arithmetic with constant moduli) proves k+b = k_nb + G*mp for the neighbour it returns and that the 'no neighbour' exit is unreachable. "
                "(b) The real get_shell_weights runs with np.linalg.svd replaced by unconstrained atoms: on every normally returning path the returned (wk, bk_cart) satisfy "
@@ -35,7 +41,7 @@ EXPLANATION = ("(a) The real find_G_and_neighbours runs on a k-point list whose 
 ASSUMPTIONS = ["complete Gamma-centred mesh, each point once (find_G_and_neighbours)", "b-vectors inside the search box of find_bk_vectors (|b_i| <= 2 N_i)",
                "(b) only normally returning paths: the singular-value guard and the completeness guard may reject (string / RuntimeError as documented)",
                "(c) kmesh_tol in [1e-9,1e-5]; the 6 lattices x meshes of the family all possess a complete set of independent shells inside the search box (checked by the harness's own selection), so 'Could not find a complete set' counts as a violation there"]
-OUTSIDE = [".nnkp neighbour lists beyond one symbolic transposition / rotation of the shell order and seeded shuffles (all NNB! orders)", "the shell search for EVERY lattice (argsort over >=124 symbolic norms and LAPACK SVD): only the concrete lattice family of (c)",
+OUTSIDE = ["body-centred tetragonal and face-centred orthorhombic cells with isotropic meshes (and any cell whose first shell spans all three directions without being complete): find_bk_vectors raises 'Could not find a complete set' there although a complete set exists (reported; proposed_fixes/C22-find_bk_vectors-parallel-shell-test.diff; cases listed in PENDING_FIX)", ".nnkp neighbour lists beyond one symbolic transposition / rotation of the shell order and seeded shuffles (all NNB! orders)", "the shell search for EVERY lattice (argsort over >=124 symbolic norms and LAPACK SVD): only the concrete lattice family of (c)",
            "that LAPACK's svd is accurate (the weights are only required to pass the code's own completeness guard)", "meshes above the stated sizes",
            "perturbed k-point coordinates in find_G_and_neighbours (np.rint absorbs them; rounding is covered in C23)"]
 STUBS = ["open() in bkvectors: in-memory file holding the .nnkp text written by the harness", "np.linalg.svd on symbolic input: fresh unconstrained atoms of the right shapes (u (n,n), s (n,), vh (n,9)); variant 2: u=identity, s=ones, vh fresh",
@@ -348,7 +354,11 @@ LATTICES = dict(
     tric=np.array([[1.0, 0.1, 0.2], [0.15, 1.2, -0.1], [0.05, 0.3, 1.5]]), mono=np.array([[1.0, 0.0, 0.0], [0.0, 1.2, 0.0], [0.45, 0.0, 1.5]]),
     # strongly sheared, non-reduced cells (large off-diagonal components): short mesh vectors reach the edge of the search box
     shear=np.array([[1.0, 0.0, 0.0], [0.0, 1.1, 0.0], [0.5, 0.0, 0.2]]) * 1.4, shear2=np.array([[1.0, 0.3, 0.0], [0.9, 0.5, 0.0], [0.4, 0.45, 0.3]]),
-    skew=np.array([[0.94, 0.77, 0.73], [0.19, 0.57, 0.08], [0.92, 0.80, 0.53]]))
+    skew=np.array([[0.94, 0.77, 0.73], [0.19, 0.57, 0.08], [0.92, 0.80, 0.53]]),
+    # thorough tier: cells that need three or four shells
+    bco=np.array([[1.0, 0.6, 0.0], [-1.0, 0.6, 0.0], [0.0, 0.0, 0.9]]), bct=np.array([[0.0, 1.0, 0.7], [1.0, 0.0, 0.7], [1.0, 1.0, 0.0]]) * 0.8,
+    rhomb=np.array([[1.0, 0.25, 0.25], [0.25, 1.0, 0.25], [0.25, 0.25, 1.0]]), tetra=np.diag([1.0, 1.0, 1.45]),
+    tric2=np.array([[1.1, 0.0, 0.0], [0.35, 0.95, 0.0], [0.2, -0.3, 1.3]]), fco=np.array([[-1.0, 1.2, 1.5], [1.0, -1.2, 1.5], [1.0, 1.2, -1.5]]) * 0.5)
 
 
 def concrete_shells(name, mesh, nshell):
@@ -669,7 +679,13 @@ def case_nnkp(rec, name, mesh, seed, model):
     elif model == "rotate":                   # shell order rotated by a symbolic offset
         i, ai, pi = sym_choice("ni", list(range(nnb)))
         ass += ai
-    base = list(range(nnb)) if model != "shuffle" else np.random.default_rng(seed + 7).permutation(nnb).tolist()
+    elif model == "swap2":                    # two symbolic transpositions one after the other (3-cycles and double swaps)
+        i, ai, pi = sym_choice("ni", list(range(nnb)))
+        j, aj, pj = sym_choice("nj", list(range(nnb)))
+        i2, ai2, pi2 = sym_choice("ni2", list(range(nnb)))
+        j2, aj2, pj2 = sym_choice("nj2", list(range(nnb)))
+        ass += ai + aj + ai2 + aj2 + [pi < pj, pi2 < pj2]
+    base = list(range(nnb)) if not model.startswith("shuffle") else np.random.default_rng(seed + 7 + int(model[7:] or 0)).permutation(nnb).tolist()
 
     def body(rec):
         order = list(base)
@@ -679,6 +695,10 @@ def case_nnkp(rec, name, mesh, seed, model):
         elif model == "rotate":
             a = int(i.concretize())
             order = order[a:] + order[:a]
+        elif model == "swap2":
+            a, b, c, d = int(i.concretize()), int(j.concretize()), int(i2.concretize()), int(j2.concretize())
+            order[a], order[b] = order[b], order[a]
+            order[c], order[d] = order[d], order[c]
         rec.witness = lambda env, order=order: dict(test="nnkp", lattice=name, mesh=list(mesh), seed=seed, order=order, kmesh_tol=env.val(kt))
         fs.files["harness.nnkp"] = nnkp_text(name, mesh, kint, bvec, table, order, seed)
         try:
@@ -692,6 +712,11 @@ def case_nnkp(rec, name, mesh, seed, model):
                      "bk_grid / neighbours / G in the order of the file", not msgs, detail=("shell-ordered list: " if shell_sorted else "list not ordered by shells: ") + "; ".join(msgs[:3]),
                      key="BKVectors.from_nnkp object violates completeness / closure / file order")
     rec.explore(body, ass, max_forks=400000)
+
+
+# lattice/mesh combinations on which the code as it is raises 'Could not find a complete set of bk vectors' although a complete set of independent shells exists
+# (is_parallel_shell discards every shell after one that spans all three directions); to be added to the deep tier once /verif/proposed_fixes/C22-find_bk_vectors-parallel-shell-test.diff is in
+PENDING_FIX = []      # (was: bct / fco with isotropic meshes; the cases are part of the tiers now, see known_findings.json)
 
 
 # ------------------------------------------------------------------------------------------------------------
@@ -731,11 +756,46 @@ def cases(tier, seed):
     low = [("shear", (5, 3, 1)), ("shear", (1, 1, 1)), ("shear", (1, 6, 1)), ("shear2", (4, 1, 1)), ("shear2", (3, 2, 1)), ("skew", (1, 1, 1)), ("skew", (1, 3, 2)), ("tric", (1, 4, 1))]
     if not q:
         low += [("shear", (5, 1, 1)), ("shear", (1, 1, 4)), ("shear2", (1, 1, 1)), ("shear2", (1, 5, 1)), ("skew", (5, 3, 1)), ("skew", (2, 1, 1)), ("mono", (1, 1, 6)), ("hex", (6, 1, 1)), ("fcc", (1, 1, 1))]
+    # cells whose first shell spans all three directions without being complete (body-centred tetragonal, face-centred orthorhombic)
+    for name, mesh in [("bct", (2, 2, 2))] + ([] if q else [("fco", (2, 2, 2))]):
+        out.append(Case(f"object: BKVectors.from_kpoints lattice={name} mesh={mesh} symbolic kmesh_tol", case_object, dict(name=name, mesh=mesh, seed=seed), timeout=1500))
     for name, mesh in low:
         out.append(Case(f"object: BKVectors.from_kpoints lattice={name} low-dimensional mesh={mesh} symbolic kmesh_tol", case_object, dict(name=name, mesh=mesh, seed=seed), timeout=1500))
     nn = [("hex", (1, 1, 1), "swap"), ("ortho", (2, 2, 1), "swap"), ("sc", (2, 3, 4), "rotate"), ("hex", (2, 2, 1), "shuffle"), ("mono", (2, 3, 4), "shuffle"), ("fcc", (2, 2, 2), "swap")]
     if not q:
         nn += [("tric", (1, 1, 1), "swap"), ("mono", (2, 3, 4), "swap"), ("hex", (2, 3, 4), "rotate"), ("ortho", (1, 1, 1), "rotate"), ("tric", (2, 3, 4), "shuffle"), ("bcc", (2, 2, 3), "swap")]
+    if not q:
+        # ---- deep tier: every cell of the family through every entry point ------------------------------------------------------
+        # (bct and fco with isotropic meshes are left out: on the code as it is find_bk_vectors raises 'Could not find a complete set' there, see PENDING_FIX)
+        family = [n for n in LATTICES]
+        for name in family:
+            for mesh in [(2, 3, 4), (4, 2, 3), (5, 3, 1), (1, 6, 1), (3, 2, 5), (4, 4, 2), (1, 1, 1), (3, 3, 3)]:
+                if (name, mesh) in PENDING_FIX or any(c.kwargs.get("name") == name and c.kwargs.get("mesh") == mesh and c.fn is case_object for c in out):
+                    continue
+                out.append(Case(f"object: BKVectors.from_kpoints lattice={name} mesh={mesh} symbolic kmesh_tol", case_object, dict(name=name, mesh=mesh, seed=seed), timeout=3000))
+            for mesh in [(1, 1, 1), (2, 2, 2), (3, 2, 1)]:
+                if (name, mesh) in PENDING_FIX or any(c.kwargs.get("name") == name and c.kwargs.get("mesh") == mesh and c.fn is case_shells for c in out):
+                    continue
+                out.append(Case(f"shells lattice={name} mesh={mesh} symbolic kmesh_tol", case_shells, dict(name=name, mesh=mesh), timeout=3000))
+        # cells that need 3..6 shells: weights under the arbitrary-SVD stub
+        for name, mesh in [("bco", (1, 1, 1)), ("bco", (2, 3, 4)), ("tetra", (2, 3, 4)), ("rhomb", (5, 3, 1)), ("rhomb", (1, 6, 1)), ("bct", (1, 6, 1)), ("fco", (4, 4, 2)), ("tric2", (1, 1, 1)),
+                           ("shear2", (2, 2, 2)), ("skew", (1, 1, 1)), ("mono", (2, 3, 4)), ("bct", (2, 3, 4))]:
+            for ns, scaled, msg in ((0, False, False), (0, True, True), (-1, False, True)):
+                what = ("complete set" if ns == 0 else "last shell dropped") + (", each shell scaled by a symbolic factor in [0.5,2]" if scaled else "")
+                out.append(Case(f"weights shells={name}{mesh} ({what}) svd=v msg_if_fail={msg}", case_weights, dict(source=name, nshell=ns, mode="v", msg_if_fail=msg, mesh=mesh, scaled=scaled), timeout=3000))
+        # neighbour tables on larger meshes
+        for mesh in [(3, 3, 3), (5, 2, 2), (2, 2, 5), (2, 4, 3), (6, 3, 1), (1, 7, 2)]:     # 32 points (4x4x2): the unreachability of the 'no neighbour' exit is no longer decided within the cap
+            nk = int(np.prod(mesh))
+            for pos in sorted({0, nk // 3, nk - 1}):
+                out.append(Case(f"neighbours mesh={mesh} 1 symbolic b, k at position {pos}", case_neighbours, dict(mesh=mesh, nnb=1, kptirr=[pos]), timeout=3000))
+        for mesh in [(2, 2, 2), (4, 3, 1), (3, 2, 2)]:
+            out.append(Case(f"neighbours mesh={mesh} 2 symbolic b, 1 irreducible k", case_neighbours, dict(mesh=mesh, nnb=2, kptirr=[1]), timeout=3000))
+        # .nnkp files: more cells, larger permutations of the neighbour list
+        for name, mesh in [("hex", (2, 2, 1)), ("ortho", (1, 1, 1)), ("tetra", (2, 3, 4)), ("bco", (1, 1, 1)), ("tric2", (1, 1, 1)), ("rhomb", (5, 3, 1)), ("bct", (2, 3, 4)), ("shear", (5, 3, 1)),
+                           ("skew", (2, 2, 2)), ("fco", (4, 4, 2)), ("mono", (3, 3, 2)), ("sc", (4, 2, 3))]:
+            for model in ("swap", "rotate", "shuffle1", "shuffle2", "shuffle3"):
+                nn.append((name, mesh, model))
+        nn += [("hex", (1, 1, 1), "swap2"), ("ortho", (2, 2, 1), "swap2"), ("tetra", (2, 3, 4), "swap2"), ("hex", (2, 3, 4), "swap2")]
     for name, mesh, model in nn:
         out.append(Case(f"nnkp: BKVectors.from_nnkp lattice={name} mesh={mesh} neighbour list of the file: {model}", case_nnkp, dict(name=name, mesh=mesh, seed=seed, model=model), timeout=1500))
     return out
